@@ -37,13 +37,16 @@ def build(name, harness, srcs, spec, outdir, defines=()):
     return gen, info
 
 
-def jobs(name, gen, info, mm='sc', unwind=4, timeout=300, required=True, mem_gb=8, meta=None, extra=(), witness=True, solver=None):
+def jobs(name, gen, info, mm='sc', unwind=4, timeout=300, required=True, mem_gb=8, meta=None, extra=(), witness=True, solver=None, unwindset=None):
     meta = dict(meta or {})
     meta.update({'engine': 'E2 fvm', 'memory_model': mm, 'unwind': unwind, 'cells': info['cells'],
                  'functions': [f for f in info['functions'] if not f.startswith('vm_')]})
     base = ['cbmc', gen, '--mm', mm, '--unwind', str(unwind), '--unwinding-assertions', '--trace',
             '--no-pointer-check', '--no-bounds-check', '--no-div-by-zero-check', '--no-signed-overflow-check',
-            '--no-undefined-shift-check', '--no-pointer-primitive-check', '--no-malloc-may-fail'] + list(extra)
+            '--no-undefined-shift-check', '--no-pointer-primitive-check', '--no-malloc-may-fail', '--verbosity', '8'] + list(extra)
+    if unwindset:
+        base += ['--unwindset', ','.join('%s:%d' % kv for kv in unwindset.items())]
+        meta['unwindset'] = unwindset
     if solver:
         base += solver
     out = [Job(name, base, 'hold', timeout, mem_gb, required, meta)]
@@ -53,7 +56,7 @@ def jobs(name, gen, info, mm='sc', unwind=4, timeout=300, required=True, mem_gb=
 
 
 def config(pid, name, harness, threads, unwind, mm='sc', srcs=(), defines=(), spec=None, timeout=600, required=True,
-           mem_gb=12, bounds='', solver=None, extra_meta=None):
+           mem_gb=12, bounds='', solver=None, extra_meta=None, unwindset=None):
     """build one harness configuration and return its hold + witness jobs"""
     sp = dict(spec or {})
     sp['threads'] = threads
@@ -66,4 +69,4 @@ def config(pid, name, harness, threads, unwind, mm='sc', srcs=(), defines=(), sp
     if extra_meta:
         meta.update(extra_meta)
     return jobs(name + '.' + mm, gen, info, mm=mm, unwind=unwind, timeout=timeout, required=required, mem_gb=mem_gb, meta=meta,
-                solver=solver)
+                solver=solver, unwindset=unwindset)
